@@ -76,6 +76,8 @@ type State struct {
 	steps   int
 	id      int
 	depth   int // number of forks on this path
+	pinned  map[string]*big.Int // variables equal to a constant on this path (copy on write)
+	pinnedIDs []int
 }
 
 type Observation struct {
@@ -225,6 +227,15 @@ func (st *State) noteFact(c *Term, v bool) {
 		v = !v
 	}
 	st.facts[c.ID] = v
+	// var == const pins the variable (used to fold later conditions without the solver)
+	if v && c.Op == OpEq {
+		a, b := c.Args[0], c.Args[1]
+		if a.Op == OpVar && b.IsConst() {
+			st.pinVar(a, b)
+		} else if b.Op == OpVar && a.IsConst() {
+			st.pinVar(b, a)
+		}
+	}
 	// conjunctions known true / disjunctions known false decompose
 	if c.Op == OpAnd && v {
 		st.noteFact(c.Args[0], true)
@@ -234,6 +245,41 @@ func (st *State) noteFact(c *Term, v bool) {
 		st.noteFact(c.Args[0], false)
 		st.noteFact(c.Args[1], false)
 	}
+}
+
+func (st *State) pinVar(v, k *Term) {
+	n := make(map[string]*big.Int, len(st.pinned)+1)
+	for kk, vv := range st.pinned {
+		n[kk] = vv
+	}
+	n[v.Name] = k.constBig()
+	st.pinned = n
+	st.pinnedIDs = append(st.pinnedIDs[:len(st.pinnedIDs):len(st.pinnedIDs)], v.ID)
+}
+
+// foldPinned evaluates cond when every variable in it is pinned to a constant on this path.
+func (st *State) foldPinned(cond *Term) (bool, bool) {
+	if len(st.pinned) == 0 {
+		return false, false
+	}
+	vars := st.ex.termVars(cond)
+	if len(vars) == 0 || len(vars) > 8 {
+		return false, false
+	}
+	for _, id := range vars {
+		ok := false
+		for _, p := range st.pinnedIDs {
+			if p == id {
+				ok = true
+				break
+			}
+		}
+		if !ok {
+			return false, false
+		}
+	}
+	r := st.ex.Ctx.Eval(cond, st.pinned, nil)
+	return r.Sign() != 0, true
 }
 
 func (st *State) known(c *Term) (bool, bool) {
@@ -287,6 +333,10 @@ func (st *State) decide(cond *Term) bool {
 			}
 			return st.decide(cond.Args[0])
 		}
+	}
+	if v, ok := st.foldPinned(cond); ok {
+		st.noteFact(cond, v)
+		return v
 	}
 	panic(forkReq{cond})
 }
